@@ -56,7 +56,7 @@ ASYNC = "C02_Unique C02_Monotone C02_BaseIsStored C05_Monotone C05_NotAhead"
 gen('MC_Log_async_quick.cfg', K=1, P='{"p1","p2","p3"}', sh='ShOk12', faults=1, crashes=0, sync='FALSE', inline=2, interval=2, mbs='{0,9,80,200}', invs=ASYNC + " C03_FetchExact C04_Progress")
 gen('Sim_Log_f.cfg', P='{"p1","p2","p3"}', K=3, sh='ShOk12', faults=1, crashes=0, sync='FALSE', inline=2, interval=2, invs="EmitSched " + ASYNC, view=False)
 gen('Sim_Log_g.cfg', P='{"p1","p2","p3"}', K=2, sh='ShMax', faults=1, crashes=1, inline=0, interval=2, invs="EmitSched " + CORE, view=False)
-gen('MC_Log_maxlod_quick.cfg', P='{"p1","p2","p3"}', K=1, sh='ShMax', faults=1, crashes=1, interval=1, mbs='{80}', invs=CORE)
+gen('MC_Log_maxlod_quick.cfg', P='{"p1","p2","p3"}', K=1, sh='ShMax', faults=0, crashes=1, interval=1, mbs='{80}', invs=CORE)
 gen('Sim_Log_d.cfg', P='{"p1","p2","p3","p4","p5","p6","p7","p8"}', K=1, sh='ShOk12', faults=0, crashes=0, inline=0, interval=2, invs="EmitSched " + CORE, view=False)
 import json
 json.dump({k: v[1] for k, v in DEV.items()}, open('deviations.json', 'w'), indent=1)
